@@ -32,6 +32,18 @@
 //     `return s.removeConflict(ns, rec)` (the recursive removal that the model
 //     Tx/Store.v transcribes).
 //
+// The branch of publishTransaction is determined for EVERY exported sentinel
+// of package chain (chain.go in this directory reads the list): the tests
+// errors.Is(rpcErr, chain.X) are evaluated in source order for an error that
+// Is exactly X; a sentinel no test names takes the rejection path.  A test
+// that names something that is not a declared sentinel is an error.
+//
+//	usage: extract-c20 -chain <repo>
+//
+// prints only the sentinels and the MapRPCErr tables of package chain
+// (lib/extract_c20.py needs them also when the shape of wallet.go is not
+// recognised: the behavioural fallback must try every sentinel).
+//
 // Any shape that is not recognised is an error (exit status 1): the check then
 // reports a broken obligation instead of keeping an old table.
 package main
@@ -63,6 +75,9 @@ type result struct {
 	ResendWhere            string            `json:"resend_where"`
 	RemoveIsRecursive      bool              `json:"remove_unmined_is_remove_conflict"`
 	RemoveWhere            string            `json:"remove_where"`
+	// per exported sentinel of package chain: the branch an error that Is it takes
+	SentinelActions map[string]action `json:"sentinel_actions"`
+	Chain           chainFacts        `json:"chain"`
 }
 
 var fset = token.NewFileSet()
@@ -97,6 +112,24 @@ func parseDir(dir string) map[string]*ast.FuncDecl {
 					out[name] = fd
 				}
 			}
+		}
+	}
+	return out
+}
+
+// parseFiles returns the non-test files of a directory by name.
+func parseFiles(dir string) map[string]*ast.File {
+	pkgs, err := parser.ParseDir(fset, dir, func(fi os.FileInfo) bool {
+		n := fi.Name()
+		return len(n) < 8 || n[len(n)-8:] != "_test.go"
+	}, 0)
+	if err != nil {
+		fail("parse %s: %v", dir, err)
+	}
+	out := map[string]*ast.File{}
+	for _, p := range pkgs {
+		for n, f := range p.Files {
+			out[filepath.Base(n)] = f
 		}
 	}
 	return out
@@ -373,7 +406,7 @@ func errorsIsTarget(e ast.Expr) string {
 	return t.Sel.Name
 }
 
-func analysePublish(fd *ast.FuncDecl, funcs map[string]*ast.FuncDecl, res *result) {
+func analysePublish(fd *ast.FuncDecl, funcs map[string]*ast.FuncDecl, res *result, sentinels []sentinel) {
 	collectLocalFuncs(fd)
 	stmts := fd.Body.List
 	res.Classes = map[string]action{}
@@ -422,6 +455,16 @@ func analysePublish(fd *ast.FuncDecl, funcs map[string]*ast.FuncDecl, res *resul
 	named := []string{"ErrTxAlreadyInMempool", "ErrTxAlreadyKnown", "ErrTxAlreadyConfirmed"}
 	key := map[string]string{"ErrTxAlreadyInMempool": "in_mempool", "ErrTxAlreadyKnown": "already_known",
 		"ErrTxAlreadyConfirmed": "already_confirmed"}
+	declared := map[string]bool{}
+	for _, s := range sentinels {
+		declared[s.Name] = true
+	}
+	for _, n := range named {
+		if !declared[n] {
+			fail("chain.%s is not declared in package chain", n)
+		}
+	}
+	res.SentinelActions = map[string]action{}
 	handled := map[string]bool{}
 	branch := func(where ast.Node, body []ast.Stmt, targets []string) {
 		r := lastReturn(body)
@@ -438,12 +481,14 @@ func analysePublish(fd *ast.FuncDecl, funcs map[string]*ast.FuncDecl, res *resul
 			if handled[t] {
 				continue // an earlier branch wins
 			}
-			k, ok := key[t]
-			if !ok {
-				fail("%s: answer class chain.%s is not part of the model", pos(where), t)
+			if !declared[t] {
+				fail("%s: chain.%s is not an exported error sentinel of package chain", pos(where), t)
 			}
 			handled[t] = true
-			res.Classes[k] = act
+			res.SentinelActions[t] = act
+			if k, ok := key[t]; ok {
+				res.Classes[k] = act
+			}
 		}
 	}
 	isCls := func(st ast.Stmt) bool {
@@ -549,6 +594,12 @@ func analysePublish(fd *ast.FuncDecl, funcs map[string]*ast.FuncDecl, res *resul
 			res.Classes[key[n]] = o
 		}
 	}
+	// every other sentinel: an error that Is it matches no test
+	for _, sn := range sentinels {
+		if !handled[sn.Name] {
+			res.SentinelActions[sn.Name] = *other
+		}
+	}
 }
 
 // condTargets: errors.Is(rpcErr, chain.X) [|| errors.Is(rpcErr, chain.Y) ..]
@@ -640,13 +691,19 @@ func analyseResend(fd *ast.FuncDecl, unmined *ast.FuncDecl, res *result) {
 }
 
 func main() {
+	if len(os.Args) == 3 && os.Args[1] == "-chain" {
+		b, _ := json.Marshal(analyseChain(os.Args[2]))
+		fmt.Println(string(b))
+		return
+	}
 	if len(os.Args) != 2 {
-		fail("usage: extract-c20 <repo>")
+		fail("usage: extract-c20 [-chain] <repo>")
 	}
 	repo := os.Args[1]
 	wf := parseDir(filepath.Join(repo, "wallet"))
 	tf := parseDir(filepath.Join(repo, "wtxmgr"))
 	var res result
+	res.Chain = analyseChain(repo)
 	rel, ok := wf["Wallet.reliablyPublishTransaction"]
 	if !ok {
 		fail("func (w *Wallet) reliablyPublishTransaction not found")
@@ -660,7 +717,7 @@ func main() {
 		fail("func (w *Wallet) resendUnminedTxs not found")
 	}
 	analyseReliably(rel, wf, &res)
-	analysePublish(pub, wf, &res)
+	analysePublish(pub, wf, &res, res.Chain.Sentinels)
 	analyseResend(rs, tf["Store.UnminedTxs"], &res)
 	// RemoveUnminedTx must be the recursive removal
 	rm, ok := tf["Store.RemoveUnminedTx"]
